@@ -149,17 +149,7 @@ Proof.
   rewrite Hex. reflexivity.
 Qed.
 
-(* ---- soundness, wide encoding (windows without '=') -------------------------- *)
-Lemma wide_chars_no_pad : forall s, (forall b, In b s -> b <> 61%N) -> wide_chars s = unwiden s.
-Proof.
-  fix IH 1. intros [|c [|z t]] H; cbn [wide_chars unwiden].
-  - reflexivity.
-  - assert (Hc : (c =? 61)%N = false) by (apply N.eqb_neq; apply H; left; reflexivity). rewrite Hc. reflexivity.
-  - destruct (z =? 0)%N; [|reflexivity].
-    rewrite (IH t) by (intros b Hb; apply H; right; right; exact Hb).
-    assert (Hc : (c =? 61)%N = false) by (apply N.eqb_neq; apply H; left; reflexivity). rewrite Hc. reflexivity.
-Qed.
-
+(* ---- soundness, wide encoding ----------------------------------------------------- *)
 Lemma unwiden_length : forall s cs, unwiden s = Some cs -> 2 * length cs - 1 <= length s /\ length s <= 2 * length cs.
 Proof.
   fix IH 1. intros [|c [|z t]] cs H; cbn [unwiden] in H.
@@ -188,25 +178,21 @@ Proof.
   - right. eapply IH. eassumption.
 Qed.
 
-Theorem pipeline_base64_sound_wide_partial : forall lit d p pos alpha s e,
+Theorem pipeline_base64_sound_wide : forall lit d p pos alpha s e,
   p <= 2 -> lit <> [] ->
-  (forall i, nth_error d i = Some 61%N -> False) ->
   verify_base64 lit d p pos alpha true = Some (s, e) ->
   sp_match (mkSP (KBase64 lit p alpha true) (mkF false false false false)) (0, 0)%N d s = Some (e, None).
 Proof.
-  intros lit d p pos alpha s e Hp Hne Hnopad H.
+  intros lit d p pos alpha s e Hp Hne H.
   set (n := length lit) in *. assert (Hn : 1 <= n) by (unfold n; destruct lit; [congruence|cbn [length]; lia]).
   unfold verify_base64 in H. fold n in H. rewrite (b64_table_formulas p n Hp Hn) in H.
   cbn [unit_of] in H.
   set (dlen := enc_len (p + n + (3 - (p + n) mod 3) mod 3)) in *.
   destruct (Nat.ltb pos (core_start p * 2)) eqn:Lt; [discriminate|]. apply Nat.ltb_ge in Lt.
   set (ws := pos - core_start p * 2) in *. set (raw := firstn (dlen * 2) (skipn ws d)) in *.
-  assert (Hrawnp : forall b, In b raw -> b <> 61%N).
-  { intros b Hb ->. unfold raw in Hb. apply firstn_In_bytes in Hb. apply skipn_In_bytes in Hb.
-    apply In_nth_error in Hb. destruct Hb as [i Hi]. exact (Hnopad i Hi). }
-  rewrite (wide_chars_no_pad raw Hrawnp) in H.
-  destruct (unwiden raw) as [enc|] eqn:Eu; [|discriminate].
-  destruct (b64_decode_strict alpha enc) as [dec|] eqn:Ed; [|discriminate].
+  unfold wide_chars in H.
+  destruct (unwiden raw) as [cs|] eqn:Eu; [|discriminate].
+  destruct (b64_decode_strict alpha (strip_padding cs)) as [dec|] eqn:Ed; [|discriminate].
   destruct (Nat.leb (p + n) (length dec) && Nat.leb (pos + core_len p n * 2) (length d) && bytes_eqb (slice dec p n) lit) eqn:C;
     [|discriminate].
   inversion H; subst s e. clear H. rewrite !andb_true_iff in C. destruct C as [[C1 C2] C3].
@@ -216,7 +202,12 @@ Proof.
   assert (Hy : y <= 2) by (unfold y; lia). assert (Hk : p + n + y <= length dec) by (unfold y; lia).
   set (L := enc_len (p + n + y)).
   pose proof (b64_decode_length _ _ _ Ed) as Hlen.
-  assert (HL : L <= length enc) by (rewrite Hlen; apply enc_len_mono; exact Hk).
+  assert (HL : L <= length (strip_padding cs)) by (rewrite Hlen; apply enc_len_mono; exact Hk).
+  destruct (strip_padding_prefix cs) as [t1 Ht1].
+  assert (HLcs : L <= length cs).
+  { rewrite Ht1, app_length. lia. }
+  assert (Hpre : firstn L cs = firstn L (strip_padding cs)).
+  { remember (strip_padding cs) as spc. rewrite Ht1. apply firstn_prefix. exact HL. }
   destruct (unwiden_length _ _ Eu) as [Hl1 Hl2].
   assert (Hrawlen : length raw <= dlen * 2) by (unfold raw; apply firstn_le_length).
   assert (HLd : 2 * L <= dlen * 2) by lia.
@@ -232,7 +223,7 @@ Proof.
     - unfold window. rewrite Hcs.
       assert (Hle : Nat.leb (2 * L - 1) (length (firstn (2 * L) raw)) = true).
       { apply Nat.leb_le. rewrite firstn_length. lia. }
-      rewrite Hle. rewrite (unwiden_firstn _ _ Eu L HL).
+      rewrite Hle. rewrite (unwiden_firstn _ _ Eu L HLcs). rewrite Hpre.
       unfold L. rewrite (b64_decode_firstn _ _ _ _ Ed Hk).
       rewrite firstn_length_le by exact Hk. rewrite Nat.eqb_refl. cbn [andb].
       apply prefix_b_eqb_firstn. fold n.
@@ -243,20 +234,22 @@ Proof.
   rewrite Hex. reflexivity.
 Qed.
 
-(* Without the side condition the statement is FALSE for the faithful model: a '='
-   at an even offset anywhere in the wide window is dropped before decoding, not only
-   trailing padding.  "foob" base64wide on the wide form of "..Zm9v=YgA..": the model
-   (and the implementation: replayed, reports (4,10)) accepts, although "Zm9v=" is not
-   the base64 encoding of anything.  Known finding C01:scan:base64wide-pad-inside-window. *)
+(* the statement with a side condition that was provable before commit b2a39c9f *)
+Corollary pipeline_base64_sound_wide_partial : pipeline_base64_sound_wide_partial_statement.
+Proof. intros lit d p pos alpha s e Hp Hne _ H. eapply pipeline_base64_sound_wide; eassumption. Qed.
+
+(* Regression (known finding C01:scan:base64wide-pad-inside-window, repaired by commit
+   b2a39c9f): a '=' in the MIDDLE of a wide window is no longer dropped.  "foob"
+   base64wide on the wide form of "..Zm9v=YgA..": rejected by the model, as by the
+   specification; trailing padding still is: "..Zm9vYg==". *)
 Definition b64w_pad_lit : bytes := [102; 111; 111; 98]%N.
 Definition b64w_pad_data : bytes :=
   widen [46; 46; 90; 109; 57; 118; 61; 89; 103; 65; 46; 46]%N.
+Definition b64w_trailing_pad_data : bytes :=
+  widen [46; 46; 90; 109; 57; 118; 89; 103; 61; 61]%N.
 
-Theorem pipeline_base64_sound_wide_refuted :
-  exists lit d p pos alpha s e, p <= 2 /\ lit <> [] /\
-    verify_base64 lit d p pos alpha true = Some (s, e) /\
-    sp_match (mkSP (KBase64 lit p alpha true) (mkF false false false false)) (0, 0)%N d s = None.
-Proof.
-  exists b64w_pad_lit, b64w_pad_data, 0, 4, std_alphabet, 4, 14.
-  split; [lia|]. split; [discriminate|]. split; vm_compute; reflexivity.
-Qed.
+Example base64wide_pad_inside_window_rejected :
+  verify_base64 b64w_pad_lit b64w_pad_data 0 4 std_alphabet true = None /\
+  sp_match (mkSP (KBase64 b64w_pad_lit 0 std_alphabet true) (mkF false false false false)) (0, 0)%N b64w_pad_data 4 = None /\
+  verify_base64 b64w_pad_lit b64w_trailing_pad_data 0 4 std_alphabet true = Some (4, 14).
+Proof. vm_compute. repeat split; reflexivity. Qed.
